@@ -9,7 +9,7 @@ from h4verif import workloads as wl
 PROPERTY = "C16"
 LEVEL = "fault_enumeration"
 NEED = ("h4x",)
-RULE = ("workload library of 9 write workloads (H elements with linked/external growth and new DD blocks, SD basic, "
+RULE = ("workload library of 11 write workloads (SD dimension metadata incl. a backward-compatible dimension, an old-style RLE raster rewritten through GR, H elements with linked/external growth and new DD blocks, SD basic, "
         "SD chunked+deflate and compressed, SD unlimited, Vdata/Vgroup with attributes, GR image+palette+compressed "
         "image, annotations, SD reopen with metadata rewrite) and 3 read-only scans; the fault-free run counts the N "
         "stdio calls (fopen/fread/fwrite/fseek/ftell/fflush/fclose) the library makes on its files; then for every "
@@ -27,6 +27,15 @@ CLOSERS = ("Hclose", "SDend", "GRend", "Vfinish", "ANend", "VSdetach", "Vdetach"
 
 NW = len(wl.WORKLOADS)
 SCANS = ["sd", "v", "h"]
+NALL = NW + len(SCANS) + len(wl.WORKLOADS2)
+
+
+def wname(w):
+    if w < NW:
+        return wl.WORKLOADS[w][0]
+    if w < NW + len(SCANS):
+        return "scan_" + SCANS[w - NW]
+    return wl.WORKLOADS2[w - NW - len(SCANS)][0]
 
 
 def nontrivial(labels):
@@ -51,6 +60,9 @@ def build(widx, d):
     # file contents (external-element headers store the name), or no two runs would be byte-comparable
     if widx < NW:
         p, paths = wl.WORKLOADS[widx][1]("")
+        prelude = None
+    elif widx >= NW + len(SCANS):
+        p, paths = wl.WORKLOADS2[widx - NW - len(SCANS)][1]("")
         prelude = None
     else:
         kind = SCANS[widx - NW]
@@ -150,6 +162,19 @@ def run_fault(widx, k, sticky, mode, err):
         return "ok", {}
 
 
+def fault_site(widx, k, sticky, mode, err):
+    """library functions on the stack of the stdio call that is made to fail (innermost first), obtained by
+    re-running the case with the stack dump switched on; harness/libc frames removed"""
+    with CaseDir() as d:
+        text, paths, prelude, p = build(widx, d)
+        if prelude:
+            run_text(prelude, cwd=d)
+        rr = run_text(text, cwd=d, fault="%d:%d:%d:%d" % (k, sticky, err, mode), fault_stack=True)
+    fr = rr.fault_stack()
+    drop = ("tick", "__wrap_", "exec_call", "main", "__libc", "_start", "__sanitizer")
+    return [f for f in fr if not f.startswith(drop)]
+
+
 def api_of(line):
     t = line.split()
     if t and t[0].startswith("="):
@@ -168,7 +193,7 @@ def is_close_time(widx, k):
 # ------------------------------------------------------------------------------ Hypothesis part: random faults
 @st.composite
 def strategy_(draw, tier):
-    return {"w": draw(st.integers(0, NW + len(SCANS) - 1)), "kfrac": draw(st.integers(0, 9999)),
+    return {"w": draw(st.integers(0, NALL - 1)), "kfrac": draw(st.integers(0, 9999)),
             "sticky": draw(st.integers(0, 1)), "mode": draw(st.integers(0, 1)), "err": draw(st.sampled_from([5, 28]))}
 
 
@@ -185,7 +210,7 @@ def run_case(case):
         labels.add("close_time")
     out, det = run_fault(w, k, case["sticky"], case["mode"], case["err"])
     labels.add(out)
-    name = wl.WORKLOADS[w][0] if w < NW else "scan_" + SCANS[w - NW]
+    name = wname(w)
     sample = dict(workload=name, k=k, of=b["total"], sticky=case["sticky"], mode=case["mode"], outcome=out)
     if out in ("crash", "hang", "swallowed", "harness"):
         det = dict(det)
@@ -194,6 +219,8 @@ def run_case(case):
                    api=api_of(b["lines"][b["omap"][k]]) if b["omap"].get(k, -1) >= 0 else None,
                    op_of_fault=b["omap"].get(k), call_of_fault=(b["lines"][b["omap"][k]][:80]
                                                                  if b["omap"].get(k, -1) >= 0 else None))
+        if out == "swallowed":
+            det["fault_site"] = fault_site(w, k, case["sticky"], case["mode"], case["err"])
         return CaseResult(labels=labels, failure=det, sample=sample)
     return CaseResult(labels=labels, sample=sample)
 
@@ -217,6 +244,15 @@ def known_match(case, failure, entry):
         return False
     if m.get("stdio_call") and failure.get("stdio_call") not in m["stdio_call"]:
         return False
+    if m.get("site_contains"):
+        # identified by call site: these functions, in this order (innermost first), are on the stack of the
+        # stdio call that failed
+        site = failure.get("fault_site") or []
+        pos = -1
+        for fn in m["site_contains"]:
+            if fn not in site[pos + 1:]:
+                return False
+            pos = site.index(fn, pos + 1)
     if m.get("mode") is not None and failure.get("mode") != m["mode"]:
         return False
     if m.get("call_contains") and m["call_contains"] not in (failure.get("call_of_fault") or ""):
@@ -241,7 +277,7 @@ def extra(tier, seed, ctx):
     import sys
     mod = sys.modules[__name__]
     jobs = []
-    for w in range(NW + len(SCANS)):
+    for w in range(NALL):
         n = baseline(w)["total"]
         for k in range(n):          # every stdio call of the fault-free run, in both tiers
             for sticky in (0, 1):
@@ -282,6 +318,5 @@ def extra(tier, seed, ctx):
         known_lines.append("KNOWN-FINDING: property=%s %s" % (PROPERTY, e["text"]))
     return dict(violations=viol, evaluations=len(jobs), nt_hashes=sorted(nth), samples=samples,
                 fault_outcomes=outcomes, known_lines=known_lines, suppressed_in_enumeration=suppressed,
-                stdio_calls_per_workload={(wl.WORKLOADS[w][0] if w < NW else "scan_" + SCANS[w - NW]):
-                                          baseline(w)["total"] for w in range(NW + len(SCANS))},
+                stdio_calls_per_workload={wname(w): baseline(w)["total"] for w in range(NALL)},
                 exhaustive=True)
